@@ -59,6 +59,9 @@ def shapes(tier):
     # the failing step may be an interrupt (KeyboardInterrupt: not an Exception subclass) -- also an exit path
     for entry in ("marginal", "rejection", "iterative"):
         out.append({"entry": entry, "src": "object", "n_batches": None, "pool": 1, "N": 2, "interrupt": True})
+    # ... or an arithmetic error (FloatingPointError / ZeroDivisionError family) rather than a generic one
+    for entry in ("marginal", "rejection", "iterative"):
+        out.append({"entry": entry, "src": "object", "n_batches": None, "pool": 1, "N": 2, "arith": True})
     if tier == "thorough":
         # two crash points in one run (the second one after the first, e.g. inside the clean-up it triggers)
         for entry in ("marginal", "rejection", "iterative"):
@@ -99,6 +102,8 @@ def _harness(S, shape):
         w.fault_at2 = f2
     if shape.get("interrupt"):
         w.fault_interrupt = core.boolean("fault_is_interrupt")
+    if shape.get("arith"):
+        w.fault_arith = core.boolean("fault_is_arithmetic")
     N = shape["N"]
     lib, lnp = S.library(N, with_lnp=True)
     S.as_file(lib, lnp)            # the user's file (exists in every shape; only used when src == filename)
@@ -261,7 +266,7 @@ def run_shape(shape, tier):
             fault = f["fault"]
             site = fault[1] if fault else None
             per_site_k = info["sites"][:fault[0]].count(site) if fault else None
-            desc = lambda m: {"fault_site": site, "per_site_index": per_site_k, "interrupt": f.get("fault_kind") == "interrupt", "second_fault": (f.get("fault2") or [None, None])[1], "global_index": fault[0] if fault else None,
+            desc = lambda m: {"fault_site": site, "per_site_index": per_site_k, "interrupt": f.get("fault_kind") == "interrupt", "arith": f.get("fault_kind") == "arith", "second_fault": (f.get("fault2") or [None, None])[1], "global_index": fault[0] if fault else None,
                               "raised": repr(f["raised"])[:200], "second_raised": repr(s2["raised"])[:200]}
             tag = "%s" % (site or "nofault")
             if fault:
@@ -327,6 +332,10 @@ class BoomInterrupt(KeyboardInterrupt):
     pass
 
 
+class BoomArith(Boom, FloatingPointError):
+    pass
+
+
 class FakeHelper:
     """picklable stand-in for the compiled kernel (module level so that real worker processes can import it)"""
     packed_order = ["P", "e", "omega", "M0", "s"]
@@ -382,7 +391,7 @@ def replay(cand):
     shape = cand["shape"]
     m = cand.get("model") or {}
     site, k = m.get("fault_site"), m.get("per_site_index")
-    Boom_ = BoomInterrupt if m.get("interrupt") else Boom
+    Boom_ = BoomInterrupt if m.get("interrupt") else (BoomArith if m.get("arith") else Boom)
     if site in ("os.unlink", "validate_prepare_data", "h5py.getitem", "worker"):
         # map the unreplayable crash points onto the nearest replayable one in the same region
         site = {"worker": "kernel.ll", "h5py.getitem": "h5py.File", "validate_prepare_data": None, "os.unlink": None}[site]
